@@ -179,6 +179,7 @@ def roundtrip(ctx, events):
     cases = ROUNDTRIP if not ctx.quick else [c for i, c in enumerate(ROUNDTRIP) if i % 2 == 0 or i in (1, 3) or c[0] in ("nacl", "naclg")]
     worst = 0.0
     n_pres = 0
+    n_ph2ph = 0
     for entry, S, P in cases:
         orc = Oracle(entry, [S], seed=ctx.seed, ctx=ctx)
         ph = Phonopy(orc.unitcell(), supercell_matrix=S, primitive_matrix=P)
@@ -231,8 +232,13 @@ def roundtrip(ctx, events):
                                                                   "" if pres == "list" else ":presentation"),
                                           "fc -> D(q_c) -> fc does not return the force constants (rel. error %.3g)" % err,
                                           dict(case=case, rel_error=err))
-        # ph2ph: re-express in another supercell; dynamical matrices at q commensurate with the original S
+        # ph2ph: re-express in another supercell; dynamical matrices at q commensurate with the original S.
+        # Every other scenario first assigns non-tabulated masses through the masses setter (isotopes): the
+        # re-expressed object must carry the object's CURRENT masses, however they were set.
         ph.force_constants = fc_spring.copy()
+        if n_ph2ph % 2 == 1:
+            ph.masses = [m * (1.0 + 0.07 * (k + 1)) for k, m in enumerate(ph.primitive.masses)]
+        n_ph2ph += 1
         Sp = np.rint(np.linalg.inv(ph.primitive.primitive_matrix)).astype(int)
         pts = get_commensurate_points(Sp)
         ref = []
